@@ -690,6 +690,9 @@ variable {F : Type} [CommRing F]
 
 theorem index_eq_val (s : Sparse F) (i : Nat) : s.index i = val s.evals i := rfl
 
+omit [CommRing F] in
+theorem wf_zero : WF (zero : Sparse F) := ⟨sorted_nil, by simp [zero]⟩
+
 theorem index_eq_zero_of_ge {s : Sparse F} (hs : WF s) {i : Nat} (hi : 2 ^ s.numVars ≤ i) :
     s.index i = 0 := by
   rw [index_eq_val]
@@ -715,6 +718,19 @@ theorem fixVariables_spec (s : Sparse F) (pp : List F) (hs : Sorted s.evals)
   unfold fixVariables
   simp only [decide_eq_true hd, assert_true, ok_bind]
   simp only [e, ok_bind, pure_eq_ok]
+
+/-- `fixVariables` computed with ANY window `w ≥ 1` (and any sufficient fuel) gives the same result -/
+theorem fixVariables_window_indep (s : Sparse F) (pp : List F) (hs : Sorted s.evals)
+    (hd : pp.length ≤ s.numVars) (w fuel : Nat) (hw : 1 ≤ w) (hf : pp.length ≤ fuel) :
+    fixVariables s pp =
+      (match fixLoop w fuel pp s.evals with
+       | .ok last => .ok ⟨s.numVars - pp.length, last⟩
+       | .panic => .panic) := by
+  unfold fixVariables
+  simp only [decide_eq_true hd, assert_true, ok_bind]
+  rw [fixLoop_window_indep _ w (window_pos s.evals.length) hw pp.length fuel pp s.evals
+    (Nat.le_refl _) hf hs]
+  cases fixLoop w fuel pp s.evals <;> rfl
 
 theorem fixVariables_panic (s : Sparse F) (pp : List F) (hd : s.numVars < pp.length) :
     fixVariables s pp = .panic := by
@@ -894,6 +910,467 @@ theorem index_ofTuples (nv : Nat) (l : List (Nat × F)) (i : Nat) :
   cases l.reverse.lookup i <;> rfl
 
 end
+
+/-! ## arithmetic: `isZero`, `add`, `neg`, `sub`, `addScaled` -/
+
+section Arith
+variable {F : Type} [CommRing F]
+
+omit [CommRing F] in
+theorem _root_.Ark.Mle.TreeMap.mem_of_get?_eq_some {k : Nat} {v : F} {m : TreeMap F}
+    (h : get? k m = some v) : (k, v) ∈ m := by
+  induction m with
+  | nil => simp [get?] at h
+  | cons a m ih =>
+    obtain ⟨k', v'⟩ := a
+    simp only [get?] at h
+    split at h
+    · rename_i e; cases h; subst e; exact List.mem_cons_self
+    · split at h
+      · cases h
+      · exact List.mem_cons_of_mem _ (ih h)
+
+omit [CommRing F] in
+/-- value-wise map of a sorted map (keys unchanged) -/
+theorem sorted_mapVals (g : F → F) {m : TreeMap F} (h : Sorted m) :
+    Sorted (m.map (fun iv => (iv.1, g iv.2))) := by
+  unfold Sorted at *
+  rw [List.pairwise_map]
+  exact h
+
+theorem val_mapVals (g : F → F) (hg : g 0 = 0) {m : TreeMap F} (h : Sorted m) (i : Nat) :
+    val (m.map (fun iv => (iv.1, g iv.2))) i = g (val m i) := by
+  induction m with
+  | nil => simp [val, get?, hg]
+  | cons a m ih =>
+    obtain ⟨k, v⟩ := a
+    have h' := sorted_mapVals g h
+    simp only [List.map_cons] at h' ⊢
+    rw [val_cons h', val_cons h, ih h.tail]
+    by_cases h1 : i = k
+    · subst h1
+      have : val m i = 0 := val_eq_zero_of_not_mem h.tail (by
+        intro b hb e; have := h.head_lt b hb; simp at this; omega)
+      simp [this, hg]
+    · simp [h1]
+
+omit [CommRing F] in
+theorem ofTuples_mapVals (g : F → F) {m : TreeMap F} (h : Sorted m) :
+    ofTuples (m.map (fun iv => (iv.1, g iv.2))) = m.map (fun iv => (iv.1, g iv.2)) :=
+  ofTuples_of_sorted (sorted_mapVals g h)
+
+/-- the accumulate-merge of `add` -/
+theorem foldl_accumulate (l : List (Nat × F)) (m : TreeMap F) (hm : Sorted m) :
+    Sorted (l.foldl (fun m iv => accumulate m iv.1 iv.2) m) ∧
+    (∀ i, val (l.foldl (fun m iv => accumulate m iv.1 iv.2) m) i =
+      val m i + (l.map (fun iv => if iv.1 = i then iv.2 else 0)).sum) ∧
+    (∀ b ∈ l.foldl (fun m iv => accumulate m iv.1 iv.2) m, b ∈ m ∨ ∃ iv ∈ l, iv.1 = b.1) := by
+  induction l generalizing m with
+  | nil => exact ⟨hm, by simp, by simp⟩
+  | cons a l ih =>
+    obtain ⟨h1, h2, h3⟩ := ih (accumulate m a.1 a.2) (sorted_accumulate hm)
+    refine ⟨h1, ?_, ?_⟩
+    · intro i
+      rw [List.foldl_cons, h2 i, val_accumulate hm, List.map_cons, List.sum_cons]
+      by_cases e : i = a.1
+      · subst e; simp; ring
+      · rw [if_neg e, if_neg (fun e' => e e'.symm)]; ring
+    · intro b hb
+      rcases h3 b hb with h | ⟨iv, hiv, e⟩
+      · rcases mem_accumulate h with h | h
+        · exact Or.inr ⟨a, List.mem_cons_self, h.symm⟩
+        · exact Or.inl h
+      · exact Or.inr ⟨iv, List.mem_cons_of_mem _ hiv, e⟩
+
+theorem sum_key_eq {m : TreeMap F} (hm : Sorted m) (i : Nat) :
+    (m.map (fun iv => if iv.1 = i then iv.2 else 0)).sum = val m i := by
+  induction m with
+  | nil => simp [val, get?]
+  | cons a m ih =>
+    obtain ⟨k, v⟩ := a
+    rw [List.map_cons, List.sum_cons, ih hm.tail, val_cons hm]
+    by_cases h : k = i
+    · simp [h]
+    · have : ¬ i = k := fun e => h e.symm
+      simp [h, this]
+
+variable [DecidableEq F]
+
+theorem val_filter_nonzero {m : TreeMap F} (hm : Sorted m) (i : Nat) :
+    val (m.filter (fun iv => !isZeroF iv.2)) i = val m i := by
+  have hf : ∀ {m : TreeMap F}, Sorted m → Sorted (m.filter (fun iv => !isZeroF iv.2)) :=
+    fun h => List.Pairwise.filter _ h
+  induction m with
+  | nil => rfl
+  | cons a m ih =>
+    obtain ⟨k, v⟩ := a
+    rw [val_cons hm, ← ih hm.tail]
+    by_cases hv : v = 0
+    · subst hv
+      have e : List.filter (fun iv : Nat × F => !isZeroF iv.2) ((k, 0) :: m) =
+          List.filter (fun iv : Nat × F => !isZeroF iv.2) m := by
+        simp [isZeroF]
+      rw [e]
+      simp
+    · have e : List.filter (fun iv : Nat × F => !isZeroF iv.2) ((k, v) :: m) =
+          (k, v) :: List.filter (fun iv : Nat × F => !isZeroF iv.2) m := by
+        simp [isZeroF, hv]
+      have hs := hf hm
+      rw [e] at hs ⊢
+      rw [val_cons hs]
+
+/-- every stored value is zero ⇒ the map denotes the zero table -/
+theorem index_eq_zero_of_isZero {s : Sparse F} (hz : s.isZero = true) (i : Nat) : s.index i = 0 := by
+  unfold isZero at hz
+  simp only [Bool.and_eq_true, List.all_eq_true] at hz
+  unfold index
+  cases h : get? i s.evals with
+  | none => rfl
+  | some v =>
+    have := hz.2 _ (mem_of_get?_eq_some h)
+    simpa [isZeroF] using this
+
+theorem numVars_of_isZero {s : Sparse F} (hz : s.isZero = true) : s.numVars = 0 := by
+  unfold isZero at hz
+  simp only [Bool.and_eq_true, beq_iff_eq] at hz
+  exact hz.1
+
+theorem isZero_iff {s : Sparse F} (hs : WF s) :
+    s.isZero = true ↔ s.numVars = 0 ∧ s.index 0 = 0 := by
+  constructor
+  · intro hz; exact ⟨numVars_of_isZero hz, index_eq_zero_of_isZero hz 0⟩
+  · rintro ⟨hn, h0⟩
+    unfold isZero
+    simp only [Bool.and_eq_true, beq_iff_eq, List.all_eq_true]
+    refine ⟨hn, ?_⟩
+    intro kv hkv
+    have hk : kv.1 = 0 := by have := hs.2 kv hkv; rw [hn] at this; simpa using this
+    have : get? 0 s.evals = some kv.2 := by
+      rw [get?_eq_some_iff hs.1, ← hk]; exact hkv
+    unfold index at h0
+    rw [this] at h0
+    simp [isZeroF, h0]
+
+theorem add_spec (s r : Sparse F) (hs : WF s) (hr : WF r)
+    (h : s.numVars = r.numVars ∨ s.isZero = true ∨ r.isZero = true) :
+    ∃ t, add s r = .ok t ∧ t.numVars = (if s.isZero then r.numVars else s.numVars) ∧ WF t ∧
+      ∀ i, t.index i = s.index i + r.index i := by
+  unfold add
+  by_cases hsz : s.isZero = true
+  · refine ⟨r, by simp [hsz], by simp [hsz], hr, ?_⟩
+    intro i; rw [index_eq_zero_of_isZero hsz, zero_add]
+  · by_cases hrz : r.isZero = true
+    · refine ⟨s, by simp [hsz, hrz], by simp [hsz], hs, ?_⟩
+      intro i; rw [index_eq_zero_of_isZero hrz, add_zero]
+    · have hn : s.numVars = r.numVars := by
+        rcases h with h | h | h
+        · exact h
+        · exact absurd h hsz
+        · exact absurd h hrz
+      obtain ⟨h1, h2, h3⟩ := foldl_accumulate (s.evals ++ r.evals) [] sorted_nil
+      have hk : Sorted ((List.foldl (fun m iv => accumulate m iv.1 iv.2) [] (s.evals ++ r.evals)).filter
+          (fun iv => !isZeroF iv.2)) := List.Pairwise.filter _ h1
+      have hb : (r.numVars == s.numVars) = true := by simp [hn]
+      refine ⟨_, by simp only [hsz, hrz, hb, assert_true, ok_bind]; rfl,
+        by simp [hsz], ?_, ?_⟩
+      · rw [ofTuples_of_sorted hk]
+        refine ⟨hk, ?_⟩
+        intro kv hkv
+        have hm := (List.mem_filter.1 hkv).1
+        rcases h3 kv hm with h | ⟨iv, hiv, e⟩
+        · simp at h
+        · show kv.1 < 2 ^ s.numVars
+          rw [← e]
+          rcases List.mem_append.1 hiv with h | h
+          · exact hs.2 iv h
+          · rw [hn]; exact hr.2 iv h
+      · intro i
+        show val (ofTuples _) i = _
+        rw [ofTuples_of_sorted hk, val_filter_nonzero h1, h2 i, List.map_append, List.sum_append,
+          sum_key_eq hs.1, sum_key_eq hr.1]
+        simp [index_eq_val, val, get?]
+
+omit [CommRing F] in
+theorem add_panic [Add F] [Zero F] (s r : Sparse F) (hn : s.numVars ≠ r.numVars) (hsz : s.isZero = false)
+    (hrz : r.isZero = false) : add s r = .panic := by
+  unfold add
+  have : (r.numVars == s.numVars) = false := by simp; exact fun e => hn e.symm
+  simp [hsz, hrz, this]
+
+omit [DecidableEq F] in
+theorem neg_spec (s : Sparse F) (hs : WF s) :
+    (neg s).numVars = s.numVars ∧ WF (neg s) ∧ ∀ i, (neg s).index i = - s.index i := by
+  unfold neg
+  rw [ofTuples_mapVals (fun x => -x) hs.1]
+  refine ⟨rfl, ⟨sorted_mapVals _ hs.1, ?_⟩, ?_⟩
+  · intro kv hkv
+    obtain ⟨iv, hiv, e⟩ := List.mem_map.1 hkv
+    subst e; exact hs.2 iv hiv
+  · intro i
+    exact val_mapVals (fun x => -x) neg_zero hs.1 i
+
+theorem isZero_neg (s : Sparse F) (hs : WF s) : (neg s).isZero = s.isZero := by
+  obtain ⟨hn, hw, hi⟩ := neg_spec s hs
+  rw [Bool.eq_iff_iff, isZero_iff hw, isZero_iff hs, hn, hi 0, neg_eq_zero]
+
+theorem sub_spec (s r : Sparse F) (hs : WF s) (hr : WF r)
+    (h : s.numVars = r.numVars ∨ s.isZero = true ∨ r.isZero = true) :
+    ∃ t, sub s r = .ok t ∧ t.numVars = (if s.isZero then r.numVars else s.numVars) ∧ WF t ∧
+      ∀ i, t.index i = s.index i - r.index i := by
+  obtain ⟨hn, hw, hi⟩ := neg_spec r hr
+  obtain ⟨t, e, h1, h2, h3⟩ := add_spec s (neg r) hs hw (by rw [hn, isZero_neg r hr]; exact h)
+  refine ⟨t, e, by rw [h1, hn], h2, ?_⟩
+  intro i; rw [h3 i, hi i, sub_eq_add_neg]
+
+theorem sub_panic (s r : Sparse F) (hr : WF r) (hn : s.numVars ≠ r.numVars) (hsz : s.isZero = false)
+    (hrz : r.isZero = false) : sub s r = .panic := by
+  unfold sub
+  apply add_panic _ _ _ hsz
+  · rw [isZero_neg r hr]; exact hrz
+  · rw [(neg_spec r hr).1]; exact hn
+
+omit [DecidableEq F] in
+/-- the scaled copy used by `addScaled` -/
+theorem scaled_spec (f : F) (o : Sparse F) (ho : WF o) :
+    WF (⟨o.numVars, ofTuples (o.evals.map (fun iv => (iv.1, f * iv.2)))⟩ : Sparse F) ∧
+    ∀ i, (⟨o.numVars, ofTuples (o.evals.map (fun iv => (iv.1, f * iv.2)))⟩ : Sparse F).index i =
+      f * o.index i := by
+  rw [ofTuples_mapVals (fun x => f * x) ho.1]
+  refine ⟨⟨sorted_mapVals _ ho.1, ?_⟩, ?_⟩
+  · intro kv hkv
+    obtain ⟨iv, hiv, e⟩ := List.mem_map.1 hkv
+    subst e; exact ho.2 iv hiv
+  · intro i
+    exact val_mapVals (fun x => f * x) (mul_zero f) ho.1 i
+
+theorem addScaled_spec (s : Sparse F) (f : F) (o : Sparse F) (hs : WF s) (ho : WF o)
+    (h : s.numVars = o.numVars ∨ s.isZero = true ∨ o.isZero = true) :
+    ∃ t, addScaled s f o = .ok t ∧ t.numVars = (if s.isZero then o.numVars else s.numVars) ∧ WF t ∧
+      ∀ i, t.index i = s.index i + f * o.index i := by
+  obtain ⟨hw, hi⟩ := scaled_spec f o ho
+  have hz : o.isZero = true →
+      (⟨o.numVars, ofTuples (o.evals.map (fun iv => (iv.1, f * iv.2)))⟩ : Sparse F).isZero = true := by
+    intro hz
+    rw [isZero_iff hw, hi 0]
+    rw [isZero_iff ho] at hz
+    exact ⟨hz.1, by rw [hz.2, mul_zero]⟩
+  obtain ⟨t, e, h1, h2, h3⟩ := add_spec s _ hs hw (by
+    rcases h with h | h | h
+    · exact Or.inl h
+    · exact Or.inr (Or.inl h)
+    · exact Or.inr (Or.inr (hz h)))
+  refine ⟨t, ?_, h1, h2, ?_⟩
+  · unfold addScaled
+    by_cases hc : (!s.isZero && !o.isZero) = true
+    · have hn : s.numVars = o.numVars := by
+        simp only [Bool.and_eq_true, Bool.not_eq_true'] at hc
+        rcases h with h | h | h
+        · exact h
+        · rw [hc.1] at h; cases h
+        · rw [hc.2] at h; cases h
+      have hb : (o.numVars == s.numVars) = true := by simp [hn]
+      simp only [hc, if_true, hb, assert_true, ok_bind]
+      exact e
+    · simp only [hc]
+      exact e
+  · intro i; rw [h3 i, hi i]
+
+theorem addScaled_panic (s : Sparse F) (f : F) (o : Sparse F) (hn : s.numVars ≠ o.numVars)
+    (hsz : s.isZero = false) (hoz : o.isZero = false) : addScaled s f o = .panic := by
+  unfold addScaled
+  have : (o.numVars == s.numVars) = false := by simp; exact fun e => hn e.symm
+  simp [hsz, hoz, this]
+
+end Arith
+end Sparse
+
+/-! ## `swapBits` (private copies of the facts needed for the sparse `relabel`) -/
+
+theorem testBit_swapBits (x a b n q : Nat) (h : a + n ≤ b) :
+    (swapBits x a b n).testBit q =
+      if a ≤ q ∧ q < a + n then x.testBit (q - a + b)
+      else if b ≤ q ∧ q < b + n then x.testBit (q - b + a)
+      else x.testBit q := by
+  unfold swapBits
+  simp only [Nat.one_shiftLeft, Nat.testBit_xor, Nat.testBit_or, Nat.testBit_shiftLeft,
+    Nat.testBit_and, Nat.testBit_shiftRight, Nat.testBit_two_pow_sub_one]
+  by_cases h1 : a ≤ q
+  · by_cases h2 : q < a + n
+    · have e1 : a + (q - a) = q := by omega
+      have e2 : b + (q - a) = q - a + b := by omega
+      have e3 : q - a < n := by omega
+      have e4 : ¬ (q ≥ b) := by omega
+      simp [h1, h2, e1, e2, e3, e4]
+    · by_cases h3 : b ≤ q
+      · by_cases h4 : q < b + n
+        · have e1 : b + (q - b) = q := by omega
+          have e2 : a + (q - b) = q - b + a := by omega
+          have e3 : q - b < n := by omega
+          have e5 : ¬ (q - a < n) := by omega
+          have e6 : ¬ (q < a + n) := by omega
+          simp [h1, h3, h4, e1, e2, e3, e5, e6]
+          generalize x.testBit q = u
+          generalize x.testBit (q - b + a) = w
+          cases u <;> cases w <;> rfl
+        · have e3 : ¬ (q - b < n) := by omega
+          have e5 : ¬ (q - a < n) := by omega
+          simp [h1, h2, h3, h4, e3, e5]
+      · have e5 : ¬ (q - a < n) := by omega
+        simp [h1, h2, h3, e5]
+  · have e4 : ¬ (q ≥ b) := by omega
+    simp [h1, e4]
+
+/-- with disjoint windows, `swapBits` is an involution -/
+theorem swapBits_swapBits (x a b n : Nat) (h : a + n ≤ b) :
+    swapBits (swapBits x a b n) a b n = x := by
+  apply Nat.eq_of_testBit_eq
+  intro q
+  rw [testBit_swapBits _ _ _ _ _ h]
+  by_cases h1 : a ≤ q ∧ q < a + n
+  · rw [if_pos h1, testBit_swapBits _ _ _ _ _ h, if_neg (by omega), if_pos (by omega)]
+    congr 1; omega
+  · rw [if_neg h1]
+    by_cases h2 : b ≤ q ∧ q < b + n
+    · rw [if_pos h2, testBit_swapBits _ _ _ _ _ h, if_pos (by omega)]
+      congr 1; omega
+    · rw [if_neg h2, testBit_swapBits _ _ _ _ _ h, if_neg h1, if_neg h2]
+
+theorem swapBits_lt (x a b n nv : Nat) (h : a + n ≤ b) (hb : b + n ≤ nv) (hx : x < 2 ^ nv) :
+    swapBits x a b n < 2 ^ nv := by
+  apply Nat.lt_pow_two_of_testBit
+  intro q hq
+  have hf : ∀ j, nv ≤ j → x.testBit j = false := by
+    intro j hj
+    apply Nat.testBit_lt_two_pow
+    exact lt_of_lt_of_le hx (Nat.pow_le_pow_right (by decide) hj)
+  rw [testBit_swapBits _ _ _ _ _ h, if_neg (by omega), if_neg (by omega)]
+  exact hf q hq
+
+/-! ## `Sparse.relabel` -/
+
+namespace Sparse
+section Relabel
+variable {F : Type} [CommRing F]
+open TreeMap
+
+omit [CommRing F] in
+theorem lookup_of_mem_nodupKeys {l : List (Nat × F)} (hn : (l.map Prod.fst).Nodup) {k : Nat} {v : F}
+    (h : (k, v) ∈ l) : l.lookup k = some v := by
+  induction l with
+  | nil => simp at h
+  | cons a l ih =>
+    obtain ⟨k', v'⟩ := a
+    simp only [List.map_cons, List.nodup_cons] at hn
+    rw [List.lookup_cons]
+    rcases List.mem_cons.1 h with e | e
+    · cases e; simp
+    · have : k ≠ k' := by
+        intro e'; subst e'
+        exact hn.1 (List.mem_map.2 ⟨(k, v), e, rfl⟩)
+      have hb : (k == k') = false := by simp [this]
+      rw [hb]
+      exact ih hn.2 e
+
+omit [CommRing F] in
+/-- re-keying a sorted map by an involution -/
+theorem get?_ofTuples_rekey (f : Nat → Nat) (hf : ∀ i, f (f i) = i) {m : TreeMap F} (hm : Sorted m)
+    (j : Nat) :
+    get? j (ofTuples (m.map (fun iv => (f iv.1, iv.2)))) = get? (f j) m := by
+  rw [get?_ofTuples]
+  have hinj : Function.Injective f := fun x y e => by rw [← hf x, ← hf y, e]
+  have hnd : (((m.map (fun iv => (f iv.1, iv.2))).reverse).map Prod.fst).Nodup := by
+    rw [List.map_reverse, List.nodup_reverse, List.map_map]
+    have : (Prod.fst ∘ fun iv : Nat × F => (f iv.1, iv.2)) = f ∘ Prod.fst := rfl
+    rw [this, ← List.map_map]
+    apply List.Nodup.map hinj
+    have hp : (m.map Prod.fst).Pairwise (· < ·) := by
+      rw [List.pairwise_map]; exact hm
+    exact hp.imp (fun h => Nat.ne_of_lt h)
+  cases h : get? (f j) m with
+  | some v =>
+    have hmem := (get?_eq_some_iff hm).1 h
+    apply lookup_of_mem_nodupKeys hnd
+    rw [List.mem_reverse, List.mem_map]
+    exact ⟨(f j, v), hmem, by simp [hf]⟩
+  | none =>
+    rw [List.lookup_eq_none_iff]
+    intro p hp
+    rw [List.mem_reverse, List.mem_map] at hp
+    obtain ⟨iv, hiv, e⟩ := hp
+    subst e
+    simp only [bne_iff_ne, ne_eq]
+    intro e
+    have := (get?_eq_none_iff hm).1 h iv hiv
+    apply this
+    rw [e, hf]
+
+omit [CommRing F] in
+theorem relabel_unfold (s : Sparse F) (a b k : Nat) :
+    relabel s a b k =
+      if (min a b == max a b || k == 0) = true then .ok s
+      else (do
+        assert (decide (min a b + k ≤ s.numVars) && decide (max a b + k ≤ s.numVars))
+        assert (decide (min a b + k ≤ max a b))
+        pure ⟨s.numVars,
+          ofTuples (s.evals.map (fun iv => (swapBits iv.1 (min a b) (max a b) k, iv.2)))⟩) := by
+  unfold relabel
+  by_cases h : a > b
+  · have e1 : min a b = b := by omega
+    have e2 : max a b = a := by omega
+    simp only [h, if_true, e1, e2]
+  · have e1 : min a b = a := by omega
+    have e2 : max a b = b := by omega
+    simp only [h, if_false, e1, e2]
+
+omit [CommRing F] in
+theorem relabel_noop (s : Sparse F) (a b k : Nat) (h : a = b ∨ k = 0) : relabel s a b k = .ok s := by
+  rw [relabel_unfold]
+  have : (min a b == max a b || k == 0) = true := by
+    rcases h with h | h
+    · subst h; simp
+    · subst h; simp
+  rw [if_pos this]
+
+omit [CommRing F] in
+theorem relabel_panic (s : Sparse F) (a b k : Nat) (hne : a ≠ b) (hk : k ≠ 0)
+    (h : ¬ (max a b + k ≤ s.numVars ∧ min a b + k ≤ max a b)) : relabel s a b k = .panic := by
+  rw [relabel_unfold]
+  have : (min a b == max a b || k == 0) = false := by
+    simp only [Bool.or_eq_false_iff, beq_eq_false_iff_ne, ne_eq]
+    exact ⟨by omega, hk⟩
+  rw [this]
+  simp only [Bool.false_eq_true, if_false]
+  by_cases h1 : max a b + k ≤ s.numVars
+  · have h2 : ¬ (min a b + k ≤ max a b) := fun h2 => h ⟨h1, h2⟩
+    have h3 : min a b + k ≤ s.numVars := by omega
+    simp [h1, h2, h3]
+  · simp [h1]
+
+theorem relabel_spec (s : Sparse F) (hs : WF s) (a b k : Nat) (hk : k ≠ 0)
+    (h1 : max a b + k ≤ s.numVars) (h2 : min a b + k ≤ max a b) :
+    ∃ s', relabel s a b k = .ok s' ∧ s'.numVars = s.numVars ∧ WF s' ∧
+      ∀ i, s'.index i = s.index (swapBits i (min a b) (max a b) k) := by
+  refine ⟨⟨s.numVars, ofTuples (s.evals.map (fun iv => (swapBits iv.1 (min a b) (max a b) k, iv.2)))⟩,
+    ?_, rfl, ?_, ?_⟩
+  · rw [relabel_unfold]
+    have : (min a b == max a b || k == 0) = false := by
+      simp only [Bool.or_eq_false_iff, beq_eq_false_iff_ne, ne_eq]
+      exact ⟨by omega, hk⟩
+    rw [this]
+    have h3 : min a b + k ≤ s.numVars := by omega
+    simp [h1, h2, h3]
+  · apply wf_ofTuples
+    intro kv hkv
+    obtain ⟨iv, hiv, e⟩ := List.mem_map.1 hkv
+    subst e
+    exact swapBits_lt _ _ _ _ _ h2 h1 (hs.2 iv hiv)
+  · intro i
+    unfold index
+    simp only
+    rw [get?_ofTuples_rekey (fun i => swapBits i (min a b) (max a b) k)
+      (fun i => swapBits_swapBits i _ _ _ h2) hs.1]
+
+end Relabel
 end Sparse
 
 end Ark.Mle
